@@ -566,7 +566,10 @@ class Harness:
         if where == "def-cached":
             self.probe("cache-creation-raised")
         label = where  # the construct abandoned at the raise point (the placement is in the message)
-        self.log.add("fault", pl, list(fault), real["status"], real.get("text"))
+        # the error page quotes generated-module line numbers, which vary with the hash seed: log its presence only
+        self.log.add("fault", pl, list(fault), real["status"],
+                     ("<error page %s>" % ("Boom" in str(real.get("text")))) if pl == "format_exceptions" and where != "?" and real["status"] == "ok"
+                     and str(real.get("text", "")).lstrip().startswith(("<", "b'")) else real.get("text"))
         fdesc = "call-out %d (occurrence %d) raising inside %s, handler placement %s" % (fault[0], fault[1], where, pl)
         if mr[0] == "ok":
             # handled inside the templates (a % try, or include_error_handler)
